@@ -469,6 +469,12 @@ impl Unsigned {
         let num_leading_zero_bytes = bytes.as_ref().iter().take_while(|&&b| {
             b == 0x00
         }).count();
+        if num_leading_zero_bytes == bytes.len() {
+            // All zero: the number is zero which is a single zero octet.
+            return unsafe {
+                Ok(Unsigned::from_bytes_unchecked(bytes.slice(..1)))
+            }
+        }
         let value = bytes.slice(num_leading_zero_bytes..);
 
         // Create a new Unsigned integer from the given value bytes, ensuring
